@@ -198,7 +198,15 @@ class Analyzer:
         return {self._fresh(e)}
 
     def _fresh(self, e):
-        return 'F@%d:%d' % (getattr(e, 'lineno', 0), getattr(e, 'col_offset', 0))
+        # one token per allocation *node*: two copies of an inlined helper share positions but are different allocations
+        pos = (getattr(e, 'lineno', 0), getattr(e, 'col_offset', 0))
+        if not hasattr(self, '_sites'):
+            self._sites = {}
+        ids = self._sites.setdefault(pos, [])
+        if id(e) not in ids:
+            ids.append(id(e))
+        k = ids.index(id(e))
+        return 'F@%d:%d' % pos + ('' if k == 0 else '#%d' % k)
 
     def _fancy(self, sl, env):
         """index expression that makes numpy return a copy (list / array index)."""
